@@ -102,10 +102,16 @@ Print Assumptions C16_compile_correct_straightline.
 (* ---------- statements with control flow are compiled correctly ---------- *)
 (* Fragment psfrag: a top-level sequence of declarations `x := e` and of
    statements built from assignments `x = e` to globals, `if c … {else if c …}
-   [else …] end` chains, `while c … end` and `break` (inside a while only:
-   nb_stmt), arbitrarily nested, all expressions in efrag (_partial: no for
-   loops, block-local declarations, arrays/maps).  The boolean of a result of
-   exec_l says that a break is under way; a while loop ends it.  The semantics exec_l is a
+   [else …] end` chains, `while c … end`, `for range [start] stop [step] … end`
+   (step ranges WITHOUT a loop variable; a zero step is a run-time error, so
+   the semantics is undefined there) and `break` (inside a loop only:
+   nb_stmt), arbitrarily nested, all expressions in efrag (_partial: no loop
+   variables, no ranges over strings/arrays/maps, no block-local declarations,
+   no arrays/maps).  The boolean of a result of exec_l says that a break is
+   under way; the innermost loop ends it.  The VM keeps the state of a range
+   loop (index, step, stop) on the operand stack: the simulation carries the
+   stack `base` below the statement, and OpDrop removes the state at the exit
+   and after a break.  The semantics exec_l is a
    fuel-indexed big-step semantics defined in CompileSemProofs.v on top of
    eval_expr (IEEE primitive floats); a while loop consumes fuel per iteration.
    For every such program: if the compiler succeeds and the semantics is
@@ -344,6 +350,36 @@ Example C16_ex_break_defined :
   match compile ex_break with
   | COk st => match vm_run 2000 (program_of (bytecode_of st)) (vm_init (program_of (bytecode_of st))) with
               | FHalted s => nth_error (globals s) 1 = Some (VNum (float_of_Z 132))
+              | _ => False
+              end
+  | CErr _ => False
+  end.
+Proof. vm_compute. repeat split; try reflexivity. discriminate. Qed.
+
+(* x := 0; t := 0
+   for range 5: x = x + 1
+     for range 10 0 -4: t = t + x          // 10, 6, 2: three rounds
+       if t > 12: break end end end        -- x = 5, t = 24 *)
+Definition ex_for : slist :=
+  let num k := ENum (float_of_Z k) in
+  let add v e := SAssign (EVar (s_ v)) (EBin BPlus TNum TNum (EVar (s_ v)) e) in
+  SCons (SDecl (s_ "x") (num 0%Z))
+ (SCons (SDecl (s_ "t") (num 0%Z))
+ (SCons (SForStep None ONoneE (num 5%Z) ONoneE
+          (SCons (add "x" (num 1%Z))
+          (SCons (SForStep None (OSome (num 10%Z)) (num 0%Z) (OSome (num (-4)%Z))
+                    (SCons (add "t" (EVar (s_ "x")))
+                    (SCons (SIf (EBin BGt TNum TNum (EVar (s_ "t")) (num 12%Z)) (SCons SBreak SNil) CNil NoElse) SNil))) SNil))) SNil)).
+
+Example C16_ex_for_defined :
+  psfrag ex_for = true /\ (ldepth ex_for <= Gen.Opcodes.StackSize)%N /\
+  match exec_l 60 ex_for (fun _ => None) with
+  | Some (env, false) => env (s_ "x") = Some (VNum (float_of_Z 5)) /\ env (s_ "t") = Some (VNum (float_of_Z 24))
+  | _ => False
+  end /\
+  match compile ex_for with
+  | COk st => match vm_run 4000 (program_of (bytecode_of st)) (vm_init (program_of (bytecode_of st))) with
+              | FHalted s => nth_error (globals s) 1 = Some (VNum (float_of_Z 24)) /\ ostack s = []
               | _ => False
               end
   | CErr _ => False
